@@ -1124,6 +1124,7 @@ pub fn plan_c05(thorough: bool) -> Plan {
         }
     }
     cases.extend(tombstone_family("proofs", thorough));
+    cases.extend(sparse_cluster_promotion_family("proofs", thorough).into_iter().filter(|c| thorough || c["bound"].as_u64().unwrap_or(0) >= 2));
     cases.extend(disjoint_pages_chain_family("proofs"));
     cases.extend(emptied_and_refilled_cluster_family("proofs"));
     cases.extend(overlay_deleting_across_branch_nodes_family("proofs"));
@@ -1257,6 +1258,9 @@ pub fn plan_c13(thorough: bool) -> Plan {
     for m in [1, 2, 3] {
         menu.push(json!({"leaf_amnesia": m}));
     }
+    // the page pool hands out buffers full of 0xA5 (reads as leaf nodes) / 0x5A (internal nodes)
+    menu.push(json!({"pool_poison": 0xA5}));
+    menu.push(json!({"pool_poison": 0x5A}));
     menu.push(json!({"page_cache": 0}));
     menu.push(json!({"page_cache": 1}));
     menu.push(json!({"leaf_cache": 0}));
@@ -1439,4 +1443,89 @@ pub fn tombstone_family(audit: &str, thorough: bool) -> Vec<Value> {
         }
     }
     cases
+}
+
+/// Sparse-cluster promotion family (C02, C05, C13): seeds `sp18` / `sp19` hold 18 / 19 leaves under
+/// one 12-bit prefix (depth-2 page elided, rebuilt from the value store whenever it is touched) with
+/// a lone leaf L high in that page; the universe SP adds keys that turn L into a chain with
+/// terminator siblings (inside the page, and reaching the page below), fillers that take the
+/// cluster across the 20-leaf threshold in the same or a later commit, and deletions that take it
+/// back. All histories of `d` commits with at most `b` key actions, with the page pool handing
+/// out buffers full of 0xA5 / 0x5A and as it comes.
+pub fn sparse_cluster_promotion_family(audit: &str, thorough: bool) -> Vec<Value> {
+    let mut out = vec![];
+    let a = vec![json!(["w", 1]), json!(["d"])];
+    for seed in ["sp19", "sp18"] {
+        for poison in [0xA5u8, 0x5A, 0] {
+            let mut cfg = Cfg::default();
+            cfg.buckets = 64;
+            cfg.pool_poison = poison;
+            let b = if thorough { 3 } else if seed == "sp19" && poison != 0 { 2 } else { 1 };
+            let aud = audit.to_string();
+            let cfg2 = cfg.clone();
+            let mk = move |ops: Vec<Value>, b: usize| case(seed, vec!["SP"], &cfg2, &aud, ops, b, true);
+            out.extend(enum_commit_histories(3, 8, b, &a, &mk));
+        }
+    }
+    // the threshold crossed and the chain created in ONE commit from 18 leaves, then every single
+    // action on the chain (three deviations; part of the quick tier explicitly)
+    for poison in [0xA5u8, 0x5A] {
+        let mut cfg = Cfg::default();
+        cfg.buckets = 64;
+        cfg.pool_poison = poison;
+        for chain in [1u64, 2, 3] {
+            for filler in [4u64, 5] {
+                for (k, act) in [(0u64, "w"), (0, "d"), (chain, "w"), (chain, "d"), (filler, "d")] {
+                    let last = if act == "w" { json!([k, "w", 2]) } else { json!([k, "d"]) };
+                    let ops = vec![c(vec![w(chain, 1), w(filler, 1)]), c(vec![last])];
+                    out.push(case("sp18", vec!["SP"], &cfg, audit, ops, 3, true));
+                }
+            }
+        }
+    }
+    out
+}
+
+/// Exact-fit leaves (C01, C16): cells of 34 + len bytes whose sum lands on every value from four
+/// bytes below to six bytes above the leaf body size (4094), as three max-size-ish cells and as
+/// four ~1000-byte cells, alone or followed by two 966-byte cells (so that the leaf is closed by a
+/// split rather than by the end of the batch) — written in one commit, with the last / the middle
+/// cell inserted by a second commit, and with that cell first written short and then overwritten
+/// to its exact size.
+pub fn exact_fit_leaf_family(audit: &str) -> Vec<Value> {
+    let mut out = vec![];
+    let mut cfg = Cfg::default();
+    cfg.buckets = 64;
+    let uni = vec!["CL0:0-6"];
+    for total in 4090usize..=4100 {
+        for shape in 0..2 {
+            let mut sizes: Vec<usize> = if shape == 0 { vec![1332, 1332] } else { vec![1000, 1000, 1000] };
+            let used: usize = sizes.iter().map(|l| l + 34).sum();
+            let last = total - used - 34;
+            if last > 1332 {
+                continue;
+            }
+            sizes.push(last);
+            for trailing in [false, true] {
+                let mut all = sizes.clone();
+                if trailing {
+                    all.extend([966, 966]);
+                }
+                let n_exact = sizes.len();
+                let items: Vec<Value> = all.iter().enumerate().map(|(k, l)| w(k as u64, *l as u64)).collect();
+                // one commit
+                out.push(case("empty", uni.clone(), &cfg, audit, vec![c(items.clone()), c(vec![w(0, 7)])], 1, true));
+                // the exact cell (last of the leaf / the middle one) inserted by a second commit
+                for late in [n_exact - 1, 1] {
+                    let first: Vec<Value> = items.iter().enumerate().filter(|(k, _)| *k != late).map(|(_, v)| v.clone()).collect();
+                    out.push(case("empty", uni.clone(), &cfg, audit, vec![c(first), c(vec![items[late].clone()]), c(vec![del(0)])], 2, true));
+                }
+                // written short first, then overwritten to the exact size
+                let mut short = items.clone();
+                short[n_exact - 1] = w((n_exact - 1) as u64, 5);
+                out.push(case("empty", uni.clone(), &cfg, audit, vec![c(short), c(vec![items[n_exact - 1].clone()]), c(vec![w(1, 9)])], 2, true));
+            }
+        }
+    }
+    out
 }
